@@ -27,6 +27,25 @@ def run(chk):
     for n in names:
         chk.ob(R, "x86::_emit|" + n, n in cases, loc=UNIT, detail="no `case InstDB::%s` in the dispatch switch" % n)
 
+    # C01.a' 8-bit register fix-ups: encodings 4..7 are AH..BH without REX and SPL..DIL with REX (SDM vol.2 3.1.1.1 / table 3-1)
+    RG = "R-GPB-FIXUP"
+    chk.rule(RG, "every FIXUP_GPB expansion forces REX for low-byte register ids >= 4 (SPL, BPL, SIL, DIL) and moves AH..BH from ids 0..3 to "
+                 "encodings 4..7: both constants equal 4 in all expansions")
+    thr, adj = [], []
+    for i, x in emit.ex.items():
+        if x.get("m") == "FIXUP_GPB" and x["k"] == "binop":
+            r = emit.e(emit.strip(x["rhs"]))
+            if x["op"] in (">=", ">", "<", "<=") and r is not None and "cv" in r:
+                thr.append((x["op"], r["cv"], i))
+            elif x["op"] == "+=" and r is not None and "cv" in r:
+                adj.append((r["cv"], i))
+    chk.floor(RG + ":expansions", len(thr), 20)
+    bad_t = [t for t in thr if (t[0], t[1]) != (">=", 4)]
+    bad_a = [a for a in adj if a[0] != 4]
+    chk.ob(RG, "threshold", not bad_t and len(thr) == len(adj), loc=emit.loc(bad_t[0][2]) if bad_t else UNIT,
+           detail="FIXUP_GPB tests `id %s %s` instead of `id >= 4`: a low-byte register would lose / gain its REX prefix" % (bad_t[0][0], bad_t[0][1]) if bad_t else "")
+    chk.ob(RG, "high-byte-adjust", not bad_a, loc=emit.loc(bad_a[0][1]) if bad_a else UNIT, detail="AH..BH are moved by %s instead of 4" % (bad_a[0][0] if bad_a else ""))
+
     # C01.e RIP-relative displacements are relative to the end of the instruction (shared with C03/C04)
     pcrel.run(chk, emit, UNIT)
 
